@@ -94,6 +94,8 @@ pub fn random_cfg(rng: &mut Rng, n_keys: u16, n_meta: u8, dup: Option<bool>) -> 
         n_keys,
         n_meta,
         max_records: None,
+        auto_rotate: false,
+        bloom_flip: false,
     }
 }
 
@@ -115,6 +117,9 @@ pub fn add_stats(sh: &mut Shard, st: &Stats) {
     sh.add("disk_used_exact_checks", st.disk_exact);
     sh.add("disk_used_bounded_checks", st.disk_bounded);
     sh.add("offloaded_bytes", st.offloaded_bytes);
+    sh.add("automatic_rotations_mirrored", st.auto_rotations);
+    sh.add("restarts_under_another_bloom_config", st.bloom_flips);
+    sh.add("steps_over_limit_not_yet_rotated", st.overfull_steps);
     for a in st.abstract_states.iter() {
         sh.set_insert("abstract_states", *a as u64);
     }
